@@ -524,6 +524,8 @@ class LoopTr:
             isinstance(e, ast.Attribute) and _is_name(e.value))
         if not all(ok_arg(e) for e in call.args):
             return None
+        if any(isinstance(n, ast.Name) and n.id == s.targets[0].id for e in call.args for n in ast.walk(e)):
+            return None         # x = helper(x): the renaming below would capture the argument
         body = [x for x in h.body if not (isinstance(x, ast.Expr) and isinstance(x.value, ast.Constant))]
         if not body or not isinstance(body[-1], ast.Return) or not _is_name(body[-1].value):
             return None
